@@ -1,5 +1,6 @@
 #![recursion_limit = "512"]
 mod astgen;
+mod clock;
 mod controller;
 mod corpus;
 mod exec;
@@ -91,6 +92,9 @@ fn main() {
         "replay" => {
             let path = args.get(2).unwrap_or_else(|| usage());
             std::process::exit(minimise::replay_file(path));
+        }
+        "clocktest" => {
+            println!("clock seam works: {}", clock::selftest());
         }
         "probe" => {
             let p = probe::send_sync_probe();
